@@ -175,6 +175,13 @@ pub fn journal(history: &[Value], op: &Value) {
     }
 }
 
+/// A compound op (C14-M3: thousands of library calls, child processes) is not one library call:
+/// take it off the watchdog; the calls it makes are tracked individually in their own worlds.
+pub fn watch_exempt() {
+    let id = MY_WATCH_ID.with(|i| *i);
+    WATCH.lock().unwrap().remove(&id);
+}
+
 pub fn journal_done() {
     let id = MY_WATCH_ID.with(|i| *i);
     WATCH.lock().unwrap().remove(&id);
